@@ -6,6 +6,10 @@ ROOT = os.path.dirname(os.path.dirname(os.path.abspath(__file__)))
 KERNEL_NOTE = (" Kernel ties: the arithmetic expressions of the code at the places the model mirrors are regenerated from the source each run (Gen/Kernels.lean) and "
                "proved equal to the model's functions (theorems *_kernel_*), validated by evaluating the source expression with Python against the generated term. ")
 
+CODE_NOTE = (" Code ties: the functions of the library named in the level text are regenerated from /repo's current source on every run as Lean definitions "
+             "(translator/py2lean_logic.py -> Gen/Logic.lean) and proved EQUAL to the model's functions for all inputs (theorems *_code_*), so the property theorems "
+             "are about the code as written now; the generated table writers and searches are additionally executed (MainGen.lean) and compared with the real functions each run. ")
+
 NOTE_COMMON = ("Trusted: Lean 4.33 kernel + Mathlib single modules; axioms audited each run to be within propext/Classical.choice/Quot.sound "
                "(no sorry, native_decide, bv_decide or own axioms); the hand-written model is tied to /repo's current working tree by the "
                "correspondence run of this check (real code imported in-process), generated definitions by translator/py2lean.py. ")
@@ -15,16 +19,19 @@ CHECKS = {
     text="Theorems C01_holds/C01_determined (Lean): for every list of potentials, cutoff and nr>=3 the model of LAMMPS_PairTabulation.write "
          "emits one block per potential with header (N=nr-1, lo=dr, hi=cutoff), rows 1..N on the grid n*cutoff/(nr-1), own energy/force slots, "
          "and any output satisfying the predicate IS the model output. The model is tied to the code by a tracer correspondence over five routes "
-         "(class, writePotentials, Configuration, potable entry point, default target) plus a real-function numerical stream.",
-    ref="4 C01", technique="Lean 4 theorem about hand model + differential correspondence (tracer potentials) against the real writer",
-    note=NOTE_COMMON + KERNEL_NOTE + "Not modelled: binary64 rounding (tested to printed precision by the real stream); parametricity of the writer in the callables."),
+         "(class, writePotentials, Configuration, potable entry point, default target) plus a real-function numerical stream. C01_code_write_single/_write_potentials/_table: the "
+         "writer regenerated from the source emits exactly that table for every input; C01_code_force/_gradient: the force is minus .deriv when offered, else minus the central "
+         "difference of the callable itself with the requested step.",
+    ref="4 C01", technique="Lean 4 theorems about a hand model proved equal to the writer regenerated from source + differential correspondence (tracer potentials) against the real writer",
+    note=NOTE_COMMON + KERNEL_NOTE + CODE_NOTE + "Not modelled: binary64 rounding (tested to printed precision by the real stream); parametricity of the writer in the callables."),
  "C02": dict(
     text="Theorems C02_holds (Lean): for every non-empty list of potentials, every cutoff and every row count, the model of the DL_POLY TABLE writer rejects "
          "row counts not divisible by four and otherwise emits header (delpot=cutoff/(ngrid-4), cutpot, ngrid) and per potential exactly ngrid energies then "
          "ngrid -r dV/dr values in records of four at k*delpot (C02_accum, C02_header, C02_block, C02_record_count). Tied to the code by a tracer correspondence over "
-         "five routes incl. fixed-width layout checks, plus a real-function stream at 8 significant digits.",
-    ref="4 C02", technique="Lean 4 theorem about hand model + differential correspondence (tracer potentials, fixed-width tokeniser)",
-    note=NOTE_COMMON + KERNEL_NOTE + "Not modelled: floating-point accumulation r += delpot (tested to printed precision), nr = 4 (division by zero) excluded from the domain."),
+         "five routes incl. fixed-width layout checks, plus a real-function stream at 8 significant digits. C02_code_writer: the writer regenerated from the source raises exactly "
+         "when the model rejects and otherwise emits exactly the model's table, for every input.",
+    ref="4 C02", technique="Lean 4 theorems about a hand model proved equal to the writer regenerated from source + differential correspondence (tracer potentials, fixed-width tokeniser)",
+    note=NOTE_COMMON + KERNEL_NOTE + CODE_NOTE + "Not modelled: floating-point accumulation r += delpot (tested to printed precision), nr = 4 (division by zero) excluded from the domain."),
  "C03": dict(
     text="Theorems (Lean, element lists of any length): header names/ntypes, grid numbers (C03_header_grid, C03_grid_tab), element blocks with own metadata and exactly "
          "Nrho/Nr samples at i*step (C03_element_blocks, sampled_get), n(n+1)/2 pair blocks in lower-triangular order (lowerTri_*, C03_pair_count, C03_pair_block), lookup "
@@ -50,20 +57,22 @@ CHECKS = {
     text="Theorems (Lean): C08_select (distinct starts, any listing order: the transcription of _range_search after the stable sort satisfies the selection relation), "
          "C08_select_ties (tie rule for every list in which no two ranges share both start and marker), C08_order_independent, C08_below_first, C08_potable_default, C08_tie_mixed; "
          "the duplicate-(marker,start) order dependence is a proved defect witness (C08_full_fails) and a recorded finding. Tied to the code by exhaustive small-scope and random "
-         "correspondence (value, deriv, deriv2; API and potable), with the selection rule also evaluated directly on the implementation.",
-    ref="4 C08", technique="Lean 4 proof by loop invariant over a line-by-line transcription + exhaustive small-scope correspondence",
-    note=NOTE_COMMON + "The model works on the ranks of starts and r (only their order matters)."),
+         "correspondence (value, deriv, deriv2; API and potable), with the selection rule also evaluated directly on the implementation. C08_code_cmp/_setter/_range_search/_select/"
+         "_select_ties/_same_range: the comparator, the setter's sort, _range_search and __call__/deriv/deriv2 regenerated from the source ARE the model's functions, so the selection "
+         "theorems hold of the code as written.",
+    ref="4 C08", technique="Lean 4 proof by loop invariant; the transcription is proved equal to the functions regenerated from source; exhaustive small-scope correspondence",
+    note=NOTE_COMMON + CODE_NOTE + "The model works on the ranks of starts and r (only their order matters)."),
  "C11": dict(
     text="Theorems (Lean): decision table of _init_cutoff in exact arithmetic (C11_rejects_*, C11_nr_dr, C11_cutoff_nr, C11_cutoff_dr, C11_defaults, C11_grid_*), truthiness "
          "defect witnesses of the shipped logic and their repair (C11_truthy_witness_*, C11_fixed_*), IEEE witness of the truncation defect by kernel evaluation (C11_trunc_witness), "
          "and under the standard floating-point model C11_quotient_close / C11_round_exact / C11_snap_fires: the repaired row-count rule gives exactly k+1 rows for every k <= 2^48. "
-         "Tied to the code by a decimal-lattice sweep compared bit for bit with the Lean Float transcription, the full presence/sign table for both grids, defaults, and row counts of written tables.",
-    ref="4 C11", technique="Lean 4 theorems (case analysis + real-analysis error bound) + bit-exact Float correspondence sweep",
-    note=NOTE_COMMON + KERNEL_NOTE + "Trusted: Lean Float = IEEE binary64 with correctly rounded + - * / (decide +kernel witnesses), Python float(str) correctly rounded; RelErr model of rounding for the real-number theorems."),
+         "Tied to the code by a decimal-lattice sweep compared bit for bit with the Lean Float transcription, the full presence/sign table for both grids, defaults, and row counts of written tables. C11_code_check_positive/_init_cutoff/_rows_for_step: _check_positive, _init_cutoff and _rows_for_step regenerated from the source ARE the model's functions (same outcome, complaint and derived values for every input).",
+    ref="4 C11", technique="Lean 4 theorems (case analysis + real-analysis error bound) + bit-exact Float correspondence sweep; decision functions regenerated from source and proved equal to the model",
+    note=NOTE_COMMON + CODE_NOTE + KERNEL_NOTE + "Trusted: Lean Float = IEEE binary64 with correctly rounded + - * / (decide +kernel witnesses), Python float(str) correctly rounded; RelErr model of rounding for the real-number theorems."),
  "C06": dict(
     text="Theorems (Lean, over the reals) about terms REGENERATED from potentialfunctions.py on every run: C06_<form> for buck, bornmayer, coul, constant, zero, exponential, exp_spline, "
-         "hbnd, lj, morse, sqrt, zbl (code = documented formula for all parameters and r), C06_signatures (documented argument order), C06_polynomial (any order). Tang-Toennies is compared "
-         "numerically with the documented formula (partial). Translator validated each run by Float evaluation against Python; four access routes must return identical doubles.",
+         "hbnd, lj, morse, sqrt, zbl (code = documented formula for all parameters and r), C06_signatures (documented argument order), C06_polynomial (any order). Tang-Toennies: the code's machine-expanded expression is proved to have the documented shape with constants within 1e-13 of the closed forms "
+         "(C06_tang_toennies_shape) and is compared numerically with the documented formula. Translator validated each run by Float evaluation against Python; four access routes must return identical doubles.",
     ref="4 C06", technique="Python->Lean translation of method bodies + Lean/Mathlib identities; numeric failing-input search against documented formulas",
     note=NOTE_COMMON + "Statements over R (binary64 and libm not modelled). Documented formulas are hand transcriptions. Known finding: reference manual prints another ZBL constant set."),
  "C07": dict(
@@ -96,9 +105,9 @@ CHECKS = {
  "C13": dict(
     text="Theorems: checkTuple_spec, C13_filter_eq_delete (filtered view = by-hand deletion, any entries/sets/mode), C13_sublist, C13_empty_*, C13_unknown_labels, C13_output_eq, "
          "C13_views_independent (any op sequence), C13_mode_current; shipped-behaviour witnesses. Correspondence: four filtered lists, view sequences on one parser, tabulated bytes of filtered "
-         "view / potable --include/--exclude-species vs hand-edited file.",
-    ref="4 C13", technique="Lean list/state-machine proofs + differential correspondence incl. end-to-end bytes",
-    note=NOTE_COMMON + "wrapt.ObjectProxy attribute forwarding as observed."),
+         "view / potable --include/--exclude-species vs hand-edited file. C13_code_check_tuple/_filter_init: _check_tuple and the constructor's mode choice regenerated from the source ARE the model's checkTuple / modeCurrent.",
+    ref="4 C13", technique="Lean list/state-machine proofs + differential correspondence incl. end-to-end bytes; filter functions regenerated from source and proved equal to the model",
+    note=NOTE_COMMON + CODE_NOTE + "wrapt.ObjectProxy attribute forwarding as observed."),
  "C14": dict(
     text="Theorems about the INI model (current configuration): C14_override_sets, C14_add_appends, C14_remove_removes, C14_rejects, C14_exists_mod_whitespace, C14_other_sections_untouched, "
          "C14_sequence, C14_cli_last_wins, C14_list_once_partial (well-formed files), shipped witnesses. Correspondence: ConfigParser(overrides=, additional=) vs applyOps; by-hand edit of the file "
@@ -114,9 +123,9 @@ CHECKS = {
  "C16": dict(
     text="Theorems: C16_spline_iff (spline() accepts exactly the well-formed definitions), C16_spline_rmin/_middle/_counts, C16_table_iff, C16_key_iff, C16_documented_targets, "
          "C16_target_synonyms. Correspondence: 93 malformation/validity operators over four base models through Configuration and the potable entry point (exception class, exit status, "
-         "'configuration error - ' prefix, no table left) + generated spline/table/target/key inputs against the Lean decisions.",
-    ref="4 C16 / Appendix A", technique="Lean decision-procedure iff-theorems + catalogue-driven outcome-class correspondence",
-    note=NOTE_COMMON + "Errors raised inside exprtk are classified by the real library; command-line option syntax is out of scope."),
+         "'configuration error - ' prefix, no table left) + generated spline/table/target/key inputs against the Lean decisions. C16_code_target/_registry_sound/_parse_data/_parse_x_y: target synonyms, the factory registry and the table-form presence rules regenerated from the source; C16_signature_iff/_positional: under the signature check every parameter name reads the argument in its position.",
+    ref="4 C16 / Appendix A", technique="Lean decision-procedure iff-theorems + catalogue-driven outcome-class correspondence; target/registry/table-data functions regenerated from source and proved equal to the model",
+    note=NOTE_COMMON + CODE_NOTE + "Errors raised inside exprtk are classified by the real library; command-line option syntax is out of scope."),
  "C17": dict(category="proof",
     text="Theorems: C17_buffered (any size, any fault position: nothing written before a failing evaluation), C17_buffered_complete, C17_adp_three_writes, shipped witnesses for the fixed GULP/ADP "
          "writers. Fault enumeration: every k in 1..evaluations for 12 targets (quick 1 shape, thorough 3), recording file object, retry scenario, plus potable with a formula leaving its "
@@ -125,14 +134,14 @@ CHECKS = {
     note=NOTE_COMMON + "An 'evaluation' is one call of a model callable; the recording object stands for any destination with write()."),
  "C18": dict(
     text="Theorems: C18_at_points, C18_between(+bounds), C18_outside, sortRows_perm/_strict, C18_unsorted_ok, C18_xy_equiv, C18_plot. Correspondence: generated data files (comments, blank "
-         "lines, unsorted, with/without final newline) vs Atsim.tableReader; table forms via class and potable (x/y vs xy), zero outside, Richardson check of derivatives; plotToFile/plot rows.",
-    ref="4 C18", technique="Lean proofs about the legacy table reader + correspondence; SciPy contract tested",
-    note=NOTE_COMMON + KERNEL_NOTE + "The cubic-spline half is a contract of SciPy's InterpolatedUnivariateSpline(ext=1): tested, not proved (partial)."),
+         "lines, unsorted, with/without final newline) vs Atsim.tableReader; table forms via class and potable (x/y vs xy), zero outside, Richardson check of derivatives; plotToFile/plot rows. C18_code_parse_xy/_xy_equiv: _parse_xy regenerated from the source IS the model's deinterleave.",
+    ref="4 C18", technique="Lean proofs about the legacy table reader + correspondence; SciPy contract tested; xy parsing regenerated from source and proved equal to the model",
+    note=NOTE_COMMON + CODE_NOTE + KERNEL_NOTE + "The cubic-spline half is a contract of SciPy's InterpolatedUnivariateSpline(ext=1): tested, not proved (partial)."),
  "C19": dict(
     text="Theorems: C19_gulp(+_last), C19_adp_prefix/_unscaled/_blocks, C19_funcfl_header, C19_funcfl_inverse (over R), rowsOf5_*, C19_excel_cells, C19_excel_pair_label. Correspondence: tracer "
-         "models through GULP (4 routes), eam_adp (class, potable), writeFuncFL, excel / excel_eam / excel_eam_fs (class, potable; read back with openpyxl).",
-    ref="4 C19", technique="Lean theorems about hand models + tracer correspondence",
-    note=NOTE_COMMON + KERNEL_NOTE + "openpyxl storage trusted."),
+         "models through GULP (4 routes), eam_adp (class, potable), writeFuncFL, excel / excel_eam / excel_eam_fs (class, potable; read back with openpyxl). C19_code_gulp_writer/_r_values: the GULP writer and grid iterator regenerated from the source emit exactly the model's table for every input.",
+    ref="4 C19", technique="Lean theorems about hand models + tracer correspondence; GULP writer regenerated from source and proved equal to the model",
+    note=NOTE_COMMON + CODE_NOTE + KERNEL_NOTE + "openpyxl storage trusted."),
  "C20": dict(
     text="Theorems: C20_detects_same_key(_exact) (a second key equal modulo embedded whitespace in the same section is rejected wherever it stands), C20_whitespace_examples, C20_dupPairs_iff, "
          "C20_tables_iff, C20_registry(+_ok), C20_binding_example, shipped witness. Correspondence: every duplication operator on every entry of three base models (before/after), "
